@@ -1,4 +1,5 @@
 import Oidc.Proofs.CodeCache
+import Oidc.Proofs.CodeCompose
 import Oidc.Shapes
 import Oidc.Proofs.CacheComplete
 import Oidc.Facts
@@ -136,5 +137,23 @@ open Oidc.Generated Oidc.CodeRefine in
 theorem code_Cleanup (enc : Go.Any → Nat) (now : Int) (c : Go.CacheS) (h : CInv enc c) :
     absC enc (Code.Cache_Cleanup now c) = Oidc.CacheImpl.cleanup false (absC enc c) now :=
   (Cleanup_refines enc now c h).1
+
+open Oidc.Generated Oidc.CodeRefine in
+/-- helpers.go `TokenCache.Set` / `Get` / `Delete` as translated, over the translated cache.go: the wrapper is a cache keyed by
+    the token string itself.  Each of its operations is the abstract cache's operation under that very key (the "t-" prefix is an
+    injective renaming: two different token strings never share an entry, and a hit is a hit of the abstract cache for exactly
+    the string asked for), and the invariant that makes this so is kept. -/
+theorem code_TokenCache_is_a_cache (enc : Go.Any → Nat) (now : Int) (w : W) (k : Go.Str) (h : WInv enc w) :
+    (WInv enc (tcGet now w k).2 ∧
+      (absW enc (tcGet now w k).2).tc = (Cache.get false (absW enc w).tc now (String.ofList k)).1 ∧
+      (tcGet now w k).1.2 = (Cache.get false (absW enc w).tc now (String.ofList k)).2.isSome) ∧
+    (∀ (c : Go.Obj) (d : Int), WInv enc (tcSet now w k c d) ∧
+      (absW enc (tcSet now w k c d)).tc = Cache.set false (absW enc w).tc now (String.ofList k) (enc (Go.Any.obj c)) d) ∧
+    (WInv enc (tcDel w k) ∧ (absW enc (tcDel w k)).tc = Cache.delete (absW enc w).tc (String.ofList k)) :=
+  ⟨tcGet_spec enc now w k h, fun c d => tcSet_spec enc now w k c d h, tcDel_spec enc w k h⟩
+
+/-- the renaming is injective (what "never share an entry" rests on) -/
+theorem code_TokenCache_key_injective (a b : String) (h : Oidc.CodeRefine.tkey a = Oidc.CodeRefine.tkey b) : a = b :=
+  Oidc.CodeRefine.tkey_inj a b h
 
 end Oidc.Props.C12
